@@ -4,6 +4,7 @@ import (
 	"context"
 	"fmt"
 	"sort"
+	"strings"
 	"time"
 
 	eth2client "github.com/attestantio/go-eth2-client"
@@ -446,7 +447,13 @@ func execPlan(impl scenarioImpl) func(plan any, sched *simrt.Tape) *sim.Outcome 
 		if res.Violation != nil {
 			out.Violation = res.Violation
 			switch res.Violation.Kind {
-			case "panic", "deadlock":
+			case "panic":
+				out.Violation.Kind = "C13/panic"
+				// the one panic that is a known finding gets its own class, so that any other panic stands out
+				if d := res.Violation.Detail; strings.Contains(d, "nil pointer dereference") && strings.Contains(d, ").accountsForEpochWithFilter(") {
+					out.Violation.Kind = "C13/panic-nil-account-in-lookup"
+				}
+			case "deadlock":
 				out.Violation.Kind = "C13/" + res.Violation.Kind
 			case "horizon", "stuck":
 				out.Violation.Kind = "C13/" + res.Violation.Kind
